@@ -313,7 +313,11 @@ def run_pinned(chk, harnesses, only_ids=None):
     KNOWN-FINDING line (exit status unaffected); failing differently -> VIOLATION; passing -> note only."""
     for f in vlib.open_findings(chk.pid):
         pin = f.get("pinned")
-        if not pin or (only_ids and f["id"] not in only_ids):
+        if only_ids and f["id"] not in only_ids:
+            continue
+        if not pin:
+            # listed, identified by the input described in the entry, not re-run here (generators keep away from that input)
+            chk.known(f["id"], f["what"])
             continue
         harness = harnesses[pin["harness"]]
         acc, rejs, nev = run_and_validate(chk, harness, pin["header"], [pin["script"]], pin["module"], pin["cfg"],
